@@ -918,8 +918,17 @@ func genManyErrors(b *builder, n int) {
 				b.add("manyerr", "unmarshal", doc, nil)
 				b.add("manyerr", "tojson", doc, nil)
 				b.add("manyerr", "series", append([]byte("x "), doc...), withKnown)
+				b.add("manyerr", "stream", append([]byte("1 {a:2}\n"), doc...), nil)
 			}
 		}
+		// errors of the decoder's own list: unknown types, texts the struct types reject
+		for _, ent := range []string{"point {x:[]}\n", "build {zzz:1}\n", "nosuch 1\n", "string 1;"} {
+			b.add("manyerr", "tseries", []byte(strings.Repeat(ent, cnt)), func(c *Case) { c.Known = typedKnown })
+			b.add("manyerr", "tseries", []byte("point {x:1}\n"+strings.Repeat(ent, cnt)+"any {v:1}"), func(c *Case) { c.Known = typedKnown })
+		}
+		// many bad escapes (the lexer's capped list; no input is known that the lexer takes and strconv.Unquote rejects)
+		b.add("manyerr", "shell", []byte(strings.Repeat("\"\\x4\" ", cnt)), nil)
+		b.add("manyerr", "shell", []byte(strings.Repeat("\"\\400\" z ", cnt)), nil)
 		b.add("manyerr", "shell", []byte(strings.Repeat("\"\\z\" ", cnt)), nil)
 		b.add("manyerr", "shell", []byte(strings.Repeat("a\n", cnt)), nil)
 	}
